@@ -36,11 +36,14 @@ def with_homographs(T, rnd, p=.3):
     props = sorted({pp for _s, pp, _o in T if pp != M.RDF_TYPE}) or [EX + "p0"]
     s, pp = rnd.choice(subs), rnd.choice(props)
     lex = str(rnd.randint(5, 9))
+    typed = sorted({x for x, q, _o in T if q == M.RDF_TYPE})
     pair = rnd.choice([[M.lit(lex, M.XSD_INTEGER), M.lit(lex)], [M.lit(lex), M.lit(lex, DT_CUSTOM)],
-                       [M.iri(EX + "u0"), M.lit(EX + "u0")], [M.lit("true", M.XSD + "boolean"), M.lit("true")]])
+                       [M.iri(EX + "u0"), M.lit(EX + "u0")], [M.lit("true", M.XSD + "boolean"), M.lit("true")]] +
+                      # a literal whose text is the identifier of a typed node: not a link to that node
+                      ([[M.lit(n[1])] for n in typed[:3]] if typed else []))
     rnd.shuffle(pair)
     new = [(s, pp, o) for o in pair if (s, pp, o) not in T]
-    if len(new) < 2:
+    if len(new) < len(pair):
         return T
     i = rnd.randint(0, len(T))
     return T[:i] + new + T[i:]
@@ -60,6 +63,8 @@ def general_graph(rnd, max_nodes=7, bnodes=True, rich_literals=True, inst_prop=M
     if rnd.random() < .2:
         props.append(OTHER + "r0")
     untyped = [M.iri(EX + "u%d" % i) for i in range(2)] + ([M.bnode("u0")] if bnodes else [])
+    if rnd.random() < .3:         # IRIs are not only http(s)
+        untyped += [M.iri("urn:ex:thing:%d" % rnd.randint(0, 2)), M.iri("mailto:u%d@example.org" % rnd.randint(0, 1))]
     T = set()
     pclass = rnd.choice([.35, .55, .8])
     for n in nodes:
@@ -88,6 +93,41 @@ def general_graph(rnd, max_nodes=7, bnodes=True, rich_literals=True, inst_prop=M
     T = sorted(T, key=str)
     rnd.shuffle(T)
     return with_homographs(T, rnd) if rich_literals else T
+
+
+def multi_graph(rnd, inst_prop=M.RDF_TYPE):
+    """multi-valued properties: 1-2 classes of 3-6 instances; per (class, property) one value kind and, per instance, 0-4 values of
+    that kind, so that several exact cardinalities compete with '+' for the same (property, kind)"""
+    classes = [EX + "M%d" % i for i in range(rnd.randint(1, 2))]
+    props = [EX + "m%d" % i for i in range(rnd.randint(1, 3))]
+    T = set()
+    nid = 0
+    members = {}
+    for c in classes:
+        members[c] = [M.iri(EX + "k%d" % (nid + j)) for j in range(rnd.randint(3, 6))]
+        nid += len(members[c])
+        for n in members[c]:
+            T.add((n, inst_prop, M.iri(c)))
+    everyone = [n for c in classes for n in members[c]]
+    for c in classes:
+        for p in props:
+            kind = rnd.choice(["str", "int", "node", "untyped"])
+            weights = rnd.choice([[0, 1, 2, 2, 2, 3], [1, 2, 2, 3], [1, 1, 1, 2], [2, 2, 2, 2, 3, 4], [0, 2, 3]])
+            for n in members[c]:
+                k = rnd.choice(weights)
+                if kind == "node":
+                    vals = rnd.sample(everyone, min(k, len(everyone)))
+                elif kind == "untyped":
+                    vals = [M.iri(EX + "v%d" % j) for j in rnd.sample(range(5), k)]
+                elif kind == "int":
+                    vals = [M.lit(str(j), M.XSD_INTEGER) for j in rnd.sample(range(6), k)]
+                else:
+                    vals = [M.lit("t%d" % j) for j in rnd.sample(range(6), k)]
+                for o in vals:
+                    T.add((n, p, o))
+    T = sorted(T, key=str)
+    rnd.shuffle(T)
+    return T
 
 
 def dense_graph(rnd, inst_prop=M.RDF_TYPE):
